@@ -129,7 +129,15 @@ type target struct {
 	// PtrRecv: methods whose pointer receiver may be nil (rendered as option); the other methods of the file are translated
 	// for a non-nil receiver (Go would panic on the first field read otherwise)
 	PtrRecv []string
+	// TypeAlias: qualified Go type as the target files write it (pkg.Type) -> record name, for two structs of the same name in
+	// different packages; StructGoName: record name -> the Go type's own name in the file named by StructsFrom
+	TypeAlias    map[string]string
+	StructGoName map[string]string
+	// DropCalls: methods of the context receiver whose call statements are dropped (logging helpers)
+	DropCalls []string
 }
+
+var curTypeAlias = map[string]string{}
 
 type extraSrc struct {
 	File  string
@@ -206,6 +214,19 @@ var targets = []target{
 		Funcs: []string{"CertificateBuildParams.Range", "CertificateBuildParams.NumberOfBridges", "CertificateBuildParams.NumberOfClaims",
 			"CertificateBuildParams.NumberOfBlocks", "CertificateBuildParams.EstimatedSize", "CertificateBuildParams.IsEmpty",
 			"CertificateBuildParams.IsARetry", "CertificateBuildParams.MaxDepositCount"}},
+	{File: "aggsender/statuschecker/initial_state.go", Out: "GenInitialState.v",
+		Module: "aggsender/statuschecker/initial_state.go (initialStatus.process, checkAgglayerConsistenceCerts, getLatestAggLayerCert) and the CertificateStatus predicates of agglayer/types/types.go",
+		Hash: true, IntLit: true, Ctx: "initialStatus", DropCalls: []string{"logData"},
+		Structs: []string{"AggHeader", "LocalHeader", "initialStatusResult"},
+		StructsFrom:  map[string]string{"AggHeader": "agglayer/types/types.go", "LocalHeader": "aggsender/types/types.go"},
+		StructGoName: map[string]string{"AggHeader": "CertificateHeader", "LocalHeader": "CertificateHeader"},
+		TypeAlias:    map[string]string{"agglayertypes.CertificateHeader": "AggHeader", "types.CertificateHeader": "LocalHeader"},
+		StructFields: map[string][]string{"AggHeader": {"Height", "CertificateID", "Status"}, "LocalHeader": {"Height", "CertificateID"},
+			"initialStatusResult": {"action", "cert"}},
+		IntTypes: []string{"CertificateStatus", "initialStatusAction"},
+		Extra: []extraSrc{{File: "agglayer/types/types.go", Alias: "agglayertypes",
+			Funcs: []string{"CertificateStatus.IsOpen", "CertificateStatus.IsClosed", "CertificateStatus.IsSettled", "CertificateStatus.IsInError"}}},
+		Funcs: []string{"initialStatus.getLatestAggLayerCert", "initialStatus.checkAgglayerConsistenceCerts", "initialStatus.process"}},
 	{File: "aggsender/types/block_range.go", Out: "GenBlockRange.v", Module: "aggsender/types/block_range.go",
 		Structs: []string{"BlockRange"},
 		Funcs:   []string{"getBlockMinusOne", "BlockRange.CountBlocks", "BlockRange.IsEmpty", "BlockRange.Gap"}},
@@ -228,6 +249,9 @@ type tr struct {
 	ctxOrder []string
 	errs     []string
 	funcFile map[string]*ast.File // translated function key -> the file it is declared in (Extra sources)
+	fresh    int
+	panics   []string // declarations of the panic variables used, in order
+	hashEq   bool     // the output compares hashes: Section variable hash_eqb
 	cvals    map[string]constant.Value
 	recvOpt  map[string]bool // translated function name -> its receiver is an option
 }
@@ -267,6 +291,13 @@ func goType(e ast.Expr, structs map[string]*structDef) ty {
 	case *ast.ArrayType:
 		return ty{k: kList, sub: []ty{goType(v.Elt, structs)}}
 	case *ast.SelectorExpr: // pkg.Type
+		if x, ok := v.X.(*ast.Ident); ok {
+			if rn, ok := curTypeAlias[x.Name+"."+v.Sel.Name]; ok {
+				if _, ok := structs[rn]; ok {
+					return ty{k: kStruct, name: rn}
+				}
+			}
+		}
 		if x, ok := v.X.(*ast.Ident); ok && x.Name == "common" && v.Sel.Name == "Hash" {
 			return ty{k: kHash}
 		}
@@ -302,11 +333,13 @@ type env struct {
 	loopRet bool
 	// pointers known to be non-nil here: printed expression -> the name bound to the value pointed to
 	deref map[string]string
+	// the Section variable that stands for "a nil pointer is dereferenced here" in the function being translated
+	panicVar string
 }
 
 func (e *env) clone() *env {
 	n := &env{vars: map[string]ty{}, recv: e.recv, rctx: e.rctx, flat: e.flat, rets: e.rets, named: e.named,
-		loopTup: e.loopTup, inLoop: e.inLoop, loopRet: e.loopRet}
+		loopTup: e.loopTup, inLoop: e.inLoop, loopRet: e.loopRet, panicVar: e.panicVar}
 	for k, v := range e.vars {
 		n.vars[k] = v
 	}
@@ -386,8 +419,21 @@ func (t *tr) expr(e ast.Expr, en *env) (string, ty) {
 		t.fail(v, "unknown identifier %s", v.Name)
 		return v.Name, ty{k: kUnknown}
 	case *ast.SelectorExpr:
+		if name, isDeref := en.deref[types.ExprString(v.X)]; isDeref { // v.X is a pointer known to be non-nil here: a field of the bound record
+			if _, pt := t.expr(v.X, en); pt.k == kOpt && pt.sub[0].k == kStruct {
+				if sd := t.structs[pt.sub[0].name]; sd != nil {
+					for _, f := range sd.fields {
+						if f.name == v.Sel.Name {
+							return fmt.Sprintf("(%s_%s %s)", sd.name, f.name, name), f.t
+						}
+					}
+				}
+			}
+			t.fail(v, "selector .%s through a pointer", v.Sel.Name)
+			return "?", ty{k: kUnknown}
+		}
 		chain, ok := selChain(v)
-		if ok && en.rctx && chain[0] == en.recv { // context selector -> Section variable
+		if ok && en.rctx && chain[0] == en.recv && !hasDerefPrefix(v, en) { // context selector -> Section variable
 			name := strings.Join(chain, "_")
 			vt, known := t.ctxVars[name]
 			if !known {
@@ -574,7 +620,12 @@ func (t *tr) composite(v *ast.CompositeLit, en *env) (string, ty) {
 			if !inView { // a field outside the record's view: not modelled
 				continue
 			}
-			c, _ := t.expr(kv.Value, en)
+			c, ct := t.expr(kv.Value, en)
+			for _, f := range sd.fields {
+				if f.name == kv.Key.(*ast.Ident).Name && f.t.k == kOpt && ct.k == kStruct {
+					c = "(Some " + c + ")" // a pointer field set to a record known to be non-nil
+				}
+			}
 			vals[kv.Key.(*ast.Ident).Name] = c
 		}
 		var args []string
@@ -667,6 +718,11 @@ func (t *tr) call(v *ast.CallExpr, en *env) (string, ty) {
 			if wraps && len(v.Args) >= 2 {
 				if id, ok := v.Args[len(v.Args)-1].(*ast.Ident); ok && en.vars[id.Name].k == kErr {
 					return "(err_wrap " + id.Name + ")", ty{k: kErr}
+				}
+				if id, ok := v.Args[len(v.Args)-1].(*ast.Ident); ok {
+					if _, local := en.vars[id.Name]; !local { // a package-level sentinel error
+						return "EFail", ty{k: kErr}
+					}
 				}
 				t.fail(v, "fmt.Errorf with %%w whose last argument is not an error variable")
 				return "?", ty{k: kUnknown}
@@ -855,6 +911,165 @@ func (t *tr) zeroOf(x ty) string {
 	return zero(x)
 }
 
+// hasDerefPrefix: some proper prefix of the selector chain is a pointer bound by an enclosing nil test
+func hasDerefPrefix(v *ast.SelectorExpr, en *env) bool {
+	var x ast.Expr = v.X
+	for {
+		if _, ok := en.deref[types.ExprString(x)]; ok {
+			return true
+		}
+		sel, ok := x.(*ast.SelectorExpr)
+		if !ok {
+			return false
+		}
+		x = sel.X
+	}
+}
+
+// ptrBase: if e is `X.f` (or `X.f.g..`, `X.m(..)`'s receiver chain) where X is a pointer to a record that may be nil here
+// (an identifier of option type, or a context selector of option type, not bound by an enclosing nil test), returns X
+func (t *tr) ptrBase(e ast.Expr, en *env) ast.Expr {
+	sel, ok := e.(*ast.SelectorExpr)
+	if !ok {
+		return nil
+	}
+	for {
+		x := sel.X
+		if _, bound := en.deref[types.ExprString(x)]; bound {
+			return nil
+		}
+		if id, ok := x.(*ast.Ident); ok {
+			if vt, ok := en.vars[id.Name]; ok && vt.k == kOpt && len(vt.sub) == 1 && vt.sub[0].k == kStruct {
+				return x
+			}
+			return nil
+		}
+		if chain, ok := selChain(x); ok && en.rctx && chain[0] == en.recv && len(chain) >= 2 {
+			name := strings.Join(chain, "_")
+			vt, known := t.ctxVars[name]
+			if !known {
+				vt = t.ctxFieldType(chain[1:])
+			}
+			if vt.k == kOpt && len(vt.sub) == 1 && vt.sub[0].k == kStruct {
+				return x
+			}
+		}
+		inner, ok := x.(*ast.SelectorExpr)
+		if !ok {
+			return nil
+		}
+		sel = inner
+	}
+}
+
+// nilDerefs: the pointers a statement's own expressions dereference without a guard in the same expression
+// (`p != nil && p.f`, `p == nil || p.f` guard p), in evaluation order, each once
+func (t *tr) nilDerefs(s ast.Stmt, en *env) []ast.Expr {
+	var out []ast.Expr
+	seen := map[string]bool{}
+	var walk func(e ast.Expr, guarded map[string]bool)
+	walk = func(e ast.Expr, guarded map[string]bool) {
+		switch x := e.(type) {
+		case nil:
+			return
+		case *ast.ParenExpr:
+			walk(x.X, guarded)
+		case *ast.BinaryExpr:
+			if x.Op == token.LAND || x.Op == token.LOR {
+				g := map[string]bool{}
+				for k := range guarded {
+					g[k] = true
+				}
+				walk(x.X, g)
+				want := token.NEQ
+				if x.Op == token.LOR {
+					want = token.EQL
+				}
+				var collect func(c ast.Expr)
+				collect = func(c ast.Expr) {
+					if be, ok := c.(*ast.BinaryExpr); ok && be.Op == x.Op {
+						collect(be.X)
+						collect(be.Y)
+						return
+					}
+					if px, ok := isNilTest(c, want); ok {
+						g[types.ExprString(px)] = true
+					}
+				}
+				collect(x.X)
+				walk(x.Y, g)
+				return
+			}
+			walk(x.X, guarded)
+			walk(x.Y, guarded)
+		case *ast.UnaryExpr:
+			walk(x.X, guarded)
+		case *ast.StarExpr:
+			walk(x.X, guarded)
+		case *ast.CallExpr:
+			if mentionsLogger(x.Fun) {
+				return
+			}
+			if chain, ok := selChain(x.Fun); ok && strings.HasPrefix(strings.Join(chain, "."), "fmt.") {
+				return // message arguments are not translated
+			}
+			if sel, ok := x.Fun.(*ast.SelectorExpr); ok { // a method with a pointer receiver that may be nil is CALLED, not dereferenced
+				if b := t.ptrBase(sel, en); b != nil && types.ExprString(b) == types.ExprString(sel.X) {
+					if _, bt := t.expr(b, en.clone()); bt.k == kOpt && t.recvOpt[bt.sub[0].name+"_"+sel.Sel.Name] {
+						for _, a := range x.Args {
+							walk(a, guarded)
+						}
+						return
+					}
+				}
+			}
+			walk(x.Fun, guarded)
+			for _, a := range x.Args {
+				walk(a, guarded)
+			}
+		case *ast.CompositeLit:
+			for _, el := range x.Elts {
+				if kv, ok := el.(*ast.KeyValueExpr); ok {
+					if key, ok := kv.Key.(*ast.Ident); ok && key.Name == "message" {
+						continue
+					}
+					walk(kv.Value, guarded)
+				}
+			}
+		case *ast.IndexExpr:
+			walk(x.X, guarded)
+			walk(x.Index, guarded)
+		case *ast.SelectorExpr:
+			if b := t.ptrBase(x, en); b != nil {
+				k := types.ExprString(b)
+				if !guarded[k] && !seen[k] {
+					seen[k] = true
+					out = append(out, b)
+				}
+				return
+			}
+			walk(x.X, guarded)
+		}
+	}
+	switch v := s.(type) {
+	case *ast.IfStmt:
+		if v.Init == nil {
+			walk(v.Cond, map[string]bool{})
+		}
+	case *ast.AssignStmt:
+		for _, r := range v.Rhs {
+			walk(r, map[string]bool{})
+		}
+	case *ast.ReturnStmt:
+		for _, r := range v.Results {
+			walk(r, map[string]bool{})
+		}
+	case *ast.SwitchStmt:
+		walk(v.Tag, map[string]bool{})
+	}
+	return out
+}
+
 func isNilTest(e ast.Expr, op token.Token) (ast.Expr, bool) {
 	be, ok := e.(*ast.BinaryExpr)
 	if !ok || be.Op != op {
@@ -932,6 +1147,13 @@ func (t *tr) binary(v *ast.BinaryExpr, en *env) (string, ty) {
 		if bl, ok := v.Y.(*ast.BasicLit); ok && bl.Kind == token.INT && bt.k == kInt {
 			b, bt = b+"%Z", ty{k: kZ}
 		}
+	}
+	if at.k == kHash && bt.k == kHash && (v.Op == token.EQL || v.Op == token.NEQ) {
+		t.hashEq = true
+		if v.Op == token.EQL {
+			return "(hash_eqb " + a + " " + b + ")", ty{k: kBool}
+		}
+		return "(negb (hash_eqb " + a + " " + b + "))", ty{k: kBool}
 	}
 	k := at.k
 	if k == kUnknown {
@@ -1032,6 +1254,13 @@ func (t *tr) dropped(s ast.Stmt, en *env) bool {
 		if c, ok := v.X.(*ast.CallExpr); ok {
 			if mentionsLogger(c.Fun) {
 				return true
+			}
+			if chain, ok := selChain(c.Fun); ok && en.rctx && chain[0] == en.recv {
+				for _, d := range t.tg.DropCalls {
+					if d == chain[len(chain)-1] {
+						return true
+					}
+				}
 			}
 			if id, ok := c.Fun.(*ast.Ident); ok && en.vars[id.Name].k == kLog {
 				return true
@@ -1151,6 +1380,26 @@ func (t *tr) block(list []ast.Stmt, en *env, tail string, ind string) string {
 	s, rest := list[0], list[1:]
 	if t.dropped(s, en) {
 		return t.block(rest, en, tail, ind)
+	}
+	if ds := t.nilDerefs(s, en); len(ds) > 0 && en.panicVar != "" && !en.inLoop {
+		// the statement dereferences a pointer that no test in sight shows to be non-nil: Go panics when it is nil. The generated
+		// function takes what happens then as a parameter (a Section variable of its result type): a theorem about it for every
+		// value of that parameter is a theorem about the runs that do not panic, and cannot be proved if a panic is reachable
+		d := ds[0]
+		pc, pt := t.expr(d, en)
+		some := en.clone()
+		bound := ""
+		if id, ok := d.(*ast.Ident); ok {
+			bound = id.Name
+			some.vars[id.Name] = pt.sub[0]
+		} else {
+			t.fresh++
+			bound = fmt.Sprintf("p%d__", t.fresh)
+			some.deref[types.ExprString(d)] = bound
+		}
+		t.usePanic(en)
+		return "match " + pc + " with\n" + ind + "  | None => " + en.panicVar + "\n" + ind + "  | Some " + bound + " =>\n" + ind + "    " +
+			t.block(list, some, tail, ind+"    ") + "\n" + ind + "  end"
 	}
 	switch v := s.(type) {
 	case *ast.BranchStmt:
@@ -1384,9 +1633,9 @@ func (t *tr) block(list []ast.Stmt, en *env, tail string, ind string) string {
 		}
 		return "let '(" + strings.Join(names, ", ") + ") := " + c + " in\n" + ind + t.block(rest, en, tail, ind)
 	case *ast.IfStmt:
-		if v.Init != nil {
-			t.fail(v, "if with an init statement")
-			return "?"
+		if v.Init != nil { // if x := e; cond { .. }: the init statement first (its variables are fresh names in the targets)
+			plain := &ast.IfStmt{Cond: v.Cond, Body: v.Body, Else: v.Else}
+			return t.block(append([]ast.Stmt{v.Init, plain}, rest...), en, tail, ind)
 		}
 		if be, ok := v.Cond.(*ast.BinaryExpr); ok && be.Op == token.LOR && v.Else == nil && endsWithReturn(v.Body.List) {
 			if px, ok := isNilTest(be.X, token.EQL); ok { // if p == nil || R { return .. }; rest
@@ -1410,7 +1659,8 @@ func (t *tr) block(list []ast.Stmt, en *env, tail string, ind string) string {
 					// `if p == nil { return .. }` / `if p != nil { return .. *p .. }`: a match; below `Some`, an identifier p is the value
 					// pointed to, any other pointer expression is dereferenced through the bound name
 					key := types.ExprString(be.X)
-					bound := "deref__"
+					t.fresh++
+					bound := fmt.Sprintf("p%d__", t.fresh)
 					some := en.clone()
 					if id, ok := be.X.(*ast.Ident); ok {
 						bound = id.Name
@@ -1455,6 +1705,11 @@ func (t *tr) block(list []ast.Stmt, en *env, tail string, ind string) string {
 				b = t.block(rest, en, tail, ind+"  ")
 			}
 			return "if " + c + " then\n" + ind + "  " + a + "\n" + ind + "else\n" + ind + "  " + b
+		case hasReturn(v.Body.List) || (hasElse && hasReturn(elseList)):
+			// a branch may return or fall through: each branch is followed by the rest of the function
+			a := t.block(append(append([]ast.Stmt{}, v.Body.List...), rest...), en.clone(), tail, ind+"  ")
+			b := t.block(append(append([]ast.Stmt{}, elseList...), rest...), en.clone(), tail, ind+"  ")
+			return "if " + c + " then\n" + ind + "  " + a + "\n" + ind + "else\n" + ind + "  " + b
 		default:
 			// no branch returns: merge the variables the branches assign
 			acc := map[string]bool{}
@@ -1487,6 +1742,21 @@ func (t *tr) block(list []ast.Stmt, en *env, tail string, ind string) string {
 	}
 	t.fail(s, "statement %T", s)
 	return "?"
+}
+
+// usePanic declares the panic parameter of the function being translated (once)
+func (t *tr) usePanic(en *env) {
+	rt := ty{k: kTuple, sub: en.rets}
+	if len(en.rets) == 1 {
+		rt = en.rets[0]
+	}
+	decl := "Variable " + en.panicVar + " : " + rt.coq() + "."
+	for _, d := range t.panics {
+		if d == decl {
+			return
+		}
+	}
+	t.panics = append(t.panics, decl)
 }
 
 // loopTail: the value of one loop iteration that ends here: the carried tuple, plus (for loops with early returns) the returned value
@@ -1803,7 +2073,7 @@ func (t *tr) run() string {
 	o.WriteString("From Coq Require Import ZArith NArith Bool List.\nFrom Verif Require Import Base.GoNum.\nImport ListNotations.\nOpen Scope N_scope.\n\n")
 	if t.tg.Hash {
 		o.WriteString("Section Hash.\n(* common.Hash as an abstract type; hash2 a b = Keccak-256 of a ++ b (newTreeNode / crypto.Keccak256Hash); hash0 = the zero value *)\n")
-		o.WriteString("Variable hash : Type.\nVariable hash2 : hash -> hash -> hash.\nVariable hash0 : hash.\n\n")
+		o.WriteString("Variable hash : Type.\nVariable hash2 : hash -> hash -> hash.\nVariable hash0 : hash.\n(*HASHEQ*)\n")
 	}
 	// integer constants declared in other files
 	for q, file := range t.tg.Consts {
@@ -1865,6 +2135,9 @@ func (t *tr) run() string {
 			}
 		}
 	}
+	if t.tg.IntLit { // the newer targets: iota and constant expressions of the file itself
+		t.loadIntConsts(t.file, "")
+	}
 	var extraKeys []string
 	for _, ex := range t.tg.Extra {
 		fs := token.NewFileSet()
@@ -1917,14 +2190,18 @@ func (t *tr) run() string {
 	}
 	// records
 	for _, name := range t.tg.Structs {
-		ts := t.typeSpec(name)
+		goName := name
+		if g, ok := t.tg.StructGoName[name]; ok {
+			goName = g
+		}
+		ts := t.typeSpec(goName)
 		if file, ok := t.tg.StructsFrom[name]; ok {
 			fs := token.NewFileSet()
 			if sf, err := parser.ParseFile(fs, filepath.Join(repoRoot, file), nil, 0); err == nil {
 				for _, d := range sf.Decls {
 					if gd, ok := d.(*ast.GenDecl); ok {
 						for _, sp := range gd.Specs {
-							if x, ok := sp.(*ast.TypeSpec); ok && x.Name.Name == name {
+							if x, ok := sp.(*ast.TypeSpec); ok && x.Name.Name == goName {
 								ts = x
 							}
 						}
@@ -2078,6 +2355,7 @@ func (t *tr) run() string {
 			}
 		}
 		en.rets = rts
+		en.panicVar = "panic_" + t.funcName(recvType, fd.Name.Name)
 		rt := ty{k: kTuple, sub: rts}
 		if len(rts) == 1 {
 			rt = rts[0]
@@ -2138,6 +2416,12 @@ func (t *tr) run() string {
 		for _, n := range t.ctxOrder {
 			fmt.Fprintf(&o, "Variable %s : %s.\n", n, t.ctxVars[n].coq())
 		}
+		if len(t.panics) > 0 {
+			o.WriteString("(* what a function returns when it dereferences a nil pointer (Go panics): a parameter, so that a theorem proved for\n   every value of it is a theorem about the runs that do not panic *)\n")
+			for _, d := range t.panics {
+				o.WriteString(d + "\n")
+			}
+		}
 		o.WriteString("\n")
 	}
 	o.WriteString(strings.Join(defs, "\n"))
@@ -2147,7 +2431,13 @@ func (t *tr) run() string {
 	if t.tg.Hash {
 		o.WriteString("End Hash.\n")
 	}
-	return o.String()
+	out := o.String()
+	if t.hashEq {
+		out = strings.Replace(out, "(*HASHEQ*)", "Variable hash_eqb : hash -> hash -> bool.   (* == on common.Hash *)", 1)
+	} else {
+		out = strings.Replace(out, "(*HASHEQ*)\n", "\n", 1)
+	}
+	return out
 }
 
 var repoRoot = "/repo"
@@ -2176,6 +2466,10 @@ func main() {
 				t    ty
 			}{}, rets: map[string]ty{}, ctxVars: map[string]ty{}, funcFile: map[string]*ast.File{}}
 		t.cvals, t.recvOpt = map[string]constant.Value{}, map[string]bool{}
+		curTypeAlias = map[string]string{}
+		for k, v := range tg.TypeAlias {
+			curTypeAlias[k] = v
+		}
 		curIntTypes = map[string]bool{}
 		for _, n := range tg.IntTypes {
 			curIntTypes[n] = true
